@@ -69,7 +69,10 @@ RULE = ('cases: synthesized dynamic images (both classes/byte orders; common, MI
         'iter_symbols / get_table_offset / get_relocation_tables / a second walk are put to the same object and the first walk '
         'resumed to its end - all answers must be the stateless ones; the walks / num_tags / get_tag part of the history is also run one '
         'tag at a time against the stateful Coq model (hrun) and its reference (rrun); every observation of the '
-        'implementation is bounded by a 10 s timer; a malformed stream (no terminator, unmapped pointers, bad links, bad indices) is '
+        'implementation is bounded by a 10 s timer; the library reads each image through a stream kind drawn per case (BytesIO, '
+        'real buffered files untouched / warmed / at EOF / with a 16-byte buffer, mmap, gzip, decoy descriptor); the tags of the '
+        'main walk are read AFTER their stream was closed; one forced image per run (three in the thorough tier) has a SysV or GNU '
+        'hash table with more than 2**20 buckets or bloom words, its table certified by sysv_valid / gnu_valid; a malformed stream (no terminator, unmapped pointers, bad links, bad indices) is '
         'out of domain; plus the seed libraries.  distinct = hash(kind, abstract); non-trivial = more than 3 tags or a hash '
         'table or a relocation table')
 
@@ -367,12 +370,14 @@ def _gen_history(rng, codes=None):
 
 
 def gen(ctx):
+    from tools.lib.streams import draw_kind
     rng = ctx.rng
     cases = []
     n = ctx.scale(260, 4000)
     for i in range(n):
         a = _gen_image(ctx, rng, malformed=(i % 8 == 7))
         a.append(['hist', _gen_history(rng, [e[0] for e in _d(a)['entries'] if isinstance(e[0], int)])])
+        a.append(['stream', draw_kind(rng)])
         cases.append(('img', a))
     d = os.path.join(str(REPO), 'test', 'testfiles_for_unittests')
     limit = ctx.scale(60000, 600000)
@@ -385,7 +390,11 @@ def gen(ctx):
         if data[:4] != b'\x7fELF' or data[4] not in (1, 2) or data[5] not in (1, 2):
             continue
         if _has_dynamic(data):
-            cases.append(('file', [fn, _gen_history(rng)]))
+            cases.append(('file', [fn, _gen_history(rng), draw_kind(rng)]))
+    # hash tables with more than 2**20 buckets / bloom words (and a few symbols): one in the quick tier
+    for _ in range(ctx.scale(1, 3)):
+        cases.append(('big', [rng.random() < 0.5, rng.random() < 0.5, rng.choice(['sysv', 'gnu_buckets', 'gnu_bloom']),
+                              rng.randint(2, 6), 0x100000 + rng.randint(1, 40), rng.choice(['bytesio', 'file', 'mmap'])]))
     return cases
 
 
@@ -1070,7 +1079,14 @@ def _observe_dyn(make, with_symbols, names):
         if seq != it:
             raise AssertionError('get_tag(n) differs from iter_tags()')
         return n
-    core = [_ok(lambda: [_tagrepr(t) for t in make().iter_tags()]), _ok(numtags_and_gettag), _ok(offs), _ok(relocs)]
+    def tags_after_close():
+        # the tags are answers already given: their strings are read after the stream has been closed
+        # (numtags_and_gettag reads them while it is open)
+        d = make()
+        tags = list(d.iter_tags())
+        d.elffile.stream.close()
+        return [_tagrepr(t) for t in tags]
+    core = [_ok(tags_after_close), _ok(numtags_and_gettag), _ok(offs), _ok(relocs)]
     syms = None
     if with_symbols:
         def lookup(d, n):
@@ -1093,49 +1109,40 @@ def _observe_dyn(make, with_symbols, names):
     return core, syms
 
 
-def _makers(data):
-    """constructors of FRESH Dynamic objects over the image: (DynamicSection, DynamicSegment)"""
+def _makers(data, opener=None):
+    """constructors of FRESH Dynamic objects over the image: (DynamicSection, DynamicSegment, ELFFile);
+    opener(data) gives the stream (kind drawn per case: BytesIO, real buffered files, mmap ...)"""
     from elftools.elf.elffile import ELFFile
     from elftools.elf.dynamic import DynamicSection, DynamicSegment
+    opener = opener or io.BytesIO
+    def mk_file():
+        return ELFFile(opener(data))
     def mk_sec():
-        ef = ELFFile(io.BytesIO(data))
+        ef = mk_file()
         for s in ef.iter_sections():
             if isinstance(s, DynamicSection):
                 return s
         raise NoDynamicSection()
     def mk_seg():
-        ef = ELFFile(io.BytesIO(data))
+        ef = mk_file()
         for s in ef.iter_segments():
             if isinstance(s, DynamicSegment):
                 return s
         raise NoDynamicSegment()
-    return mk_sec, mk_seg
+    return mk_sec, mk_seg, mk_file
 
 
-def _observe_impl(data, names):
-    from elftools.elf.elffile import ELFFile
-    from elftools.elf.dynamic import DynamicSection, DynamicSegment
-    def mk_sec():
-        ef = ELFFile(io.BytesIO(data))
-        for s in ef.iter_sections():
-            if isinstance(s, DynamicSection):
-                return s
-        raise NoDynamicSection()
-    def mk_seg():
-        ef = ELFFile(io.BytesIO(data))
-        for s in ef.iter_segments():
-            if isinstance(s, DynamicSegment):
-                return s
-        raise NoDynamicSegment()
+def _observe_impl(data, names, opener=None):
+    mk_sec, mk_seg, mk_file = _makers(data, opener)
     def secsyms():
-        ef = ELFFile(io.BytesIO(data))
+        ef = mk_file()
         for s in ef.iter_sections():
             if s['sh_type'] == 'SHT_DYNSYM':
                 return [_symrepr(x) for x in s.iter_symbols()]
         raise NoDynsym()
     try:
         with _limit():
-            ELFFile(io.BytesIO(data))
+            mk_file()
     except Exception as e:   # noqa
         return ['err', type(e).__name__]
     sec_core, _ = _observe_dyn(mk_sec, False, names)
@@ -1196,6 +1203,134 @@ def _pick_names(seen):
 
 
 def evaluate(ctx, cases):
+    from tools.lib.streams import Streams
+    S = Streams(prefix='pv-c09-')
+    try:
+        for kind, a in cases:
+            if kind == 'big':
+                _evaluate_big(ctx, a, S)
+                S.drop_files()
+        rest = [c for c in cases if c[0] != 'big']
+        if rest:
+            _evaluate_main(ctx, rest, S)
+    finally:
+        S.close()
+
+
+def _stream_kind(kind, a):
+    """the stream kind a case was drawn with (absent in old replays: BytesIO)"""
+    if kind == 'img':
+        return _d(a).get('stream') or 'bytesio'
+    return a[2] if len(a) > 2 else 'bytesio'
+
+
+# ------------------------------------------------------------------ one image with a HUGE hash table
+BIG_STRTAB = b'\0a\0bb\0ccc\0dddd\0'
+
+
+def _evaluate_big(ctx, a, S):
+    """A section-less image whose hash table has more than 2**20 buckets (or bloom words) and a handful of
+    symbols.  The table bytes are certified by the Coq predicates sysv_valid / gnu_valid (the hypothesis of the
+    count theorems, whose conclusion - the count is N - is the spec); the model is not run on 4 MB."""
+    drv = ctx.driver
+    le, is64, which, nsym, count, skind = a
+    w = 8 if is64 else 4
+    ehsz, phsz = (64, 56) if is64 else (52, 32)
+    symsz, dynsz = (24 if is64 else 16), 2 * w
+    def u(v, n):
+        return int(v).to_bytes(n, 'little' if le else 'big')
+    offs = [i for i, b in enumerate(BIG_STRTAB) if b == 0][:-1]
+    names = [b''] + [_cstr(BIG_STRTAB, offs[(i % (len(offs) - 1)) + 1] + 1 - 1 + 1) for i in range(1, nsym)]
+    nameoff = [0] + [offs[(i % (len(offs) - 1)) + 1] + 1 for i in range(1, nsym)]
+    names = [_cstr(BIG_STRTAB, o) for o in nameoff]
+    if which == 'sysv':
+        nb = count
+        bk = {}
+        ch = [0] * nsym
+        for i in range(nsym - 1, 0, -1):
+            h = _elf_hash(names[i]) % nb
+            ch[i] = bk.get(h, 0)
+            bk[h] = i
+        body = bytearray(4 * nb)
+        for h, i in bk.items():
+            body[4 * h:4 * h + 4] = u(i, 4)
+        table = u(nb, 4) + u(nsym, 4) + bytes(body) + b''.join(u(c, 4) for c in ch)
+        order = list(range(nsym))
+        tag = DT['HASH']
+    else:
+        nb = count if which == 'gnu_buckets' else 3
+        nbloom = count if which == 'gnu_bloom' else 2
+        shift = 7
+        hashed = sorted(range(1, nsym), key=lambda i: _gnu_hash(names[i]) % nb)
+        order = [0] + hashed
+        names = [names[i] for i in order]
+        nameoff = [nameoff[i] for i in order]
+        hs = [_gnu_hash(n) for n in names[1:]]
+        C = 8 * w
+        bloom = {}
+        bk = {}
+        chain = []
+        for k, h in enumerate(hs):
+            bk.setdefault(h % nb, 1 + k)
+            last = k == len(hs) - 1 or hs[k + 1] % nb != h % nb
+            chain.append((h & ~1) | (1 if last else 0))
+            wi = (h // C) % nbloom
+            bloom[wi] = bloom.get(wi, 0) | (1 << (h % C)) | (1 << ((h >> shift) % C))
+        bl = bytearray(w * nbloom)
+        for i, v in bloom.items():
+            bl[w * i:w * i + w] = u(v, w)
+        bb = bytearray(4 * nb)
+        for h, i in bk.items():
+            bb[4 * h:4 * h + 4] = u(i, 4)
+        table = u(nb, 4) + u(1, 4) + u(nbloom, 4) + u(shift, 4) + bytes(bl) + bytes(bb) + b''.join(u(c, 4) for c in chain)
+        tag = DT['GNU_HASH']
+    # layout: ehdr, 2 phdrs, dynamic array, string table, symbol table, hash table; one PT_LOAD over everything
+    delta = 0x10000
+    o_dyn = ehsz + 2 * phsz
+    ndyn = 6
+    o_str = o_dyn + ndyn * dynsz
+    o_sym = (o_str + len(BIG_STRTAB) + 7) & ~7
+    o_hash = o_sym + nsym * symsz
+    total = o_hash + len(table) + 3
+    dyn = [[DT['STRTAB'], o_str + delta], [DT['STRSZ'], len(BIG_STRTAB)], [DT['SYMTAB'], o_sym + delta], [DT['SYMENT'], symsz],
+           [tag, o_hash + delta], [0, 0]]
+    reqs = [['enc', 'Ehdr', le, is64, [b'\x7fELF', 2 if is64 else 1, 1 if le else 2, 1, 0, 0, b'\0' * 7, 3, 62 if is64 else 3, 1, 0,
+                                       ehsz, 0, 0, ehsz, phsz, 2, 0, 0, 0]]]
+    for t, o, fs in ((1, 0, total), (2, o_dyn, ndyn * dynsz)):
+        vals = [t, 4, o, o + delta, o + delta, fs, fs, 8] if is64 else [t, o, o + delta, o + delta, fs, fs, 4, 8]
+        reqs.append(['enc', 'Phdr', le, is64, vals])
+    for t, v in dyn:
+        reqs.append(['enc', 'Dyn', le, is64, [t, v]])
+    for i in range(nsym):
+        vals = [nameoff[i], 1, 2, 0, 0, 0, 5, 0x100 * i, 8] if is64 else [nameoff[i], 0x100 * i, 8, 1, 2, 0, 0, 0, 5]
+        reqs.append(['enc', 'Sym', le, is64, vals if i else [0] * 9])
+    if which == 'sysv':
+        reqs.append(['sysv_valid', le, table, nsym, False])
+    else:
+        reqs.append(['gnu_valid', le, is64, table, nsym])
+    ans = drv.batch(reqs)
+    recs = [x[0] for x in ans[:-1]]
+    fit = all(x[1] for x in ans[:-1])
+    valid = bool(ans[-1])
+    img = bytearray(total)
+    img[0:ehsz] = recs[0]
+    img[ehsz:ehsz + 2 * phsz] = recs[1] + recs[2]
+    img[o_dyn:o_dyn + ndyn * dynsz] = b''.join(recs[3:3 + ndyn])
+    img[o_str:o_str + len(BIG_STRTAB)] = BIG_STRTAB
+    img[o_sym:o_sym + nsym * symsz] = b''.join(recs[3 + ndyn:])
+    img[o_hash:o_hash + len(table)] = table
+    img = bytes(img)
+    mk_sec, mk_seg, mk_file = _makers(img, lambda data: S.open(data, skind))
+    impl = [_ok(lambda: mk_seg().num_symbols()), _ok(lambda: [s.name.encode('utf-8') for s in mk_seg().iter_symbols()]),
+            _ok(lambda: mk_seg().num_tags())]
+    spec = [['ok', nsym], ['ok', names], ['ok', ndyn]]
+    ctx.bump('big', which)
+    ctx.bump('stream_kind', skind)
+    ctx.record('big', a, impl=impl, spec=spec, model=None, in_domain=valid and fit, nontrivial=True,
+               key='sym:big/' + which)
+
+
+def _evaluate_main(ctx, cases, S):
     drv = ctx.driver
     plans = {}
     reqs = []
@@ -1279,8 +1414,12 @@ def evaluate(ctx, cases):
         kind, a = wk['kind'], wk['a']
         M1 = _split_model(m1)
         M2 = _split_model(m2)
-        I1 = _observe_impl(wk['img'], wk['names'])
-        I2 = _observe_impl(wk['img2'], wk['names'])
+        S.drop_files()
+        skind = _stream_kind(kind, a)
+        opener = (lambda data, k=skind: S.open(data, k))
+        ctx.bump('stream_kind', skind)
+        I1 = _observe_impl(wk['img'], wk['names'], opener)
+        I2 = _observe_impl(wk['img2'], wk['names'], opener)
         def views(X1, X2):
             if X1[0] == 'err' or X2[0] == 'err':
                 return [X1, X1, X2], [X1, X1, X2]
@@ -1350,7 +1489,7 @@ def evaluate(ctx, cases):
         # ---- histories: one object per view, a walk interrupted by other questions; the answers are the stateless ones
         hist = (_d(a).get('hist') if kind == 'img' else (a[1] if len(a) > 1 else None))
         if in_core and hist is not None:
-            mk1, mk2 = _makers(wk['img']), _makers(wk['img2'])
+            mk1, mk2 = _makers(wk['img'], opener), _makers(wk['img2'], opener)
             H_impl, H_spec, H_model = [], [], []
             hkey = None
             for vi, (view, mk) in enumerate([('sec', mk1[0]), ('seg', mk1[1]), ('seg', mk2[1])]):
